@@ -176,6 +176,51 @@ def run(env):
         if c["_must_reject"] and o is not False:
             env.violation("%s accepted on %s (%s must be rejected)" % (c["op"], c["ctx"], c["tag"]),
                           {"kind": "battery", "case": [c["_src"], c], "out": o})
+    # one Zkp value used for a whole sequence of proofs and verifications (custom base first / default base first):
+    # every answer must be what a fresh Zkp gives (state carried by an instance or by the process must not matter)
+    for ctx in ("B:2039", "M:%d" % P62, "B:2048"):
+        P_, q_, g_ = pq(ctx)
+        x = r.randrange(2, q_); h = rnd_member(r, ctx); sk = r.randrange(2, q_); lab = "x:7365"
+        mhr, gr_ = rnd_member(r, ctx), rnd_member(r, ctx)
+        gx, hx, pk, fac = str(pow(g_, x, P_)), str(pow(h, x, P_)), str(pow(g_, sk, P_)), str(pow(gr_, sk, P_))
+        pr = [["schnorr_prove", [str(x), hx, str(h), lab, script(r, 1024)]],
+              ["schnorr_prove", [str(x), gx, None, lab, script(r, 1024)]],
+              ["cp_prove", [str(x), gx, hx, None, str(h), lab, script(r, 1024)]],
+              ["cp_prove", [str(x), hx, str(pow(gr_, x, P_)), str(h), str(gr_), lab, script(r, 1024)]],
+              ["dec_proof", [str(sk), pk, fac, str(mhr), str(gr_), lab, script(r, 1024)]]]
+        single = env.harness([{"ctx": ctx, "op": o_, "args": a_, "tag": "instance-reuse-ref"} for o_, a_ in pr])
+        if any(not isinstance(o_, list) for o_ in single):
+            env.violation("prover failed on a true statement on %s: %s" % (ctx, single), {"kind": "battery", "case": pr}); continue
+        p_h, p_g, c_g, c_h, d_ = [o_[0] for o_ in single]
+        ver = [["schnorr_verify", [hx, str(h), p_h, lab]], ["schnorr_verify", [gx, None, p_g, lab]], ["schnorr_verify", [gx, str(g_), p_g, lab]],
+               ["cp_verify", [gx, hx, None, str(h), c_g, lab]], ["cp_verify", [hx, str(pow(gr_, x, P_)), str(h), str(gr_), c_h, lab]],
+               ["verify_decryption", [pk, fac, str(mhr), str(gr_), d_, lab]],
+               ["schnorr_verify", [gx, str(h), p_g, lab]], ["schnorr_verify", [hx, None, p_h, lab]],      # base exchanged: must be rejected
+               ["cp_verify", [gx, hx, str(h), str(h), c_g, lab]]]
+        vsingle = env.harness([{"ctx": ctx, "op": o_, "args": a_, "tag": "instance-reuse-ref"} for o_, a_ in ver])
+        big = pstr_big(ctx)
+        for k_, (st_, o_) in enumerate(zip(ver, vsingle)):
+            want = k_ < 6
+            if (want or big) and o_ is not want:
+                env.violation("%s returned %s (expected %s) for step %d of the instance-reuse battery on %s" % (st_[0], o_, want, k_, ctx), {"kind": "battery", "case": {"ctx": ctx, "op": st_[0], "args": st_[1]}})
+        steps = pr + ver
+        ref = single + vsingle
+        for name, order in (("custom-base-first", list(range(len(steps)))), ("default-base-first", [1, 2, 6, 8, 0, 3, 4, 5, 7, 9, 10, 11, 12, 13]),
+                            ("verify-first", [5, 6, 7, 8, 9, 10, 11, 12, 13, 0, 1, 2, 3, 4])):
+            seq = [steps[i] for i in order]
+            got = env.harness([{"ctx": ctx, "op": "seq", "args": [seq], "tag": "instance-reuse-" + name}])[0]
+            if not isinstance(got, list) or got != [ref[i] for i in order]:
+                bad = next((j for j, (a_, b_) in enumerate(zip(got, [ref[i] for i in order])) if a_ != b_), "?") if isinstance(got, list) else got
+                env.violation("a Zkp value reused for a sequence of operations (%s) answers step %s (%s) differently from a fresh Zkp on %s"
+                              % (name, bad, seq[bad][0] if isinstance(bad, int) else "?", ctx),
+                              {"kind": "battery", "case": {"ctx": ctx, "op": "seq", "args": [seq[: (bad + 1) if isinstance(bad, int) else len(seq)]]},
+                               "out": got[bad] if isinstance(bad, int) else got, "fresh_instance": ref[order[bad]] if isinstance(bad, int) else None})
+                break
     fails = env.tie(items, "C06", shard=500)
     if fails:
         env.tie_violation("C06", fails)
+
+
+def pstr_big(ctx):
+    s_ = ctx.split(":")[1]
+    return s_ == "2048" or int(s_) > 2 ** 60
